@@ -81,6 +81,9 @@ def recipes(draw, classes=None, d_min=1, d_max=8, max_ops=5, n_max=300,
         r['periodic'] = sorted(per) if (per and (
             spec['family'] == 'wrapped' or draw(st.booleans()))) else None
         r['pool'] = draw(st.sampled_from(list(pools)))
+        # points drawn before the bound is written (non-empty proposal
+        # cache and counters at write time)
+        r['pre'] = draw(st.sampled_from([0, 0, 1, 137, 1000]))
         r['ns'] = draw(st.lists(st.sampled_from(
             [1, 7, 137, 999, 1000, 1001, 2500]), min_size=3, max_size=3))
     return r
@@ -177,6 +180,8 @@ def build(r, pool=None):
         bc = copy.deepcopy(out.bound)
         bc.sample(1)
         out.acceptance = 1.0 - bc.n_reject / bc.n_sample
+        if r.get('pre') and out.acceptance >= 0.02:
+            out.bound.sample(r['pre'], pool=pool)
     else:
         raise ValueError(cls)
     return out
